@@ -561,6 +561,23 @@ func c20Extract(env *core.Env, tn string, seed uint64, noContained bool) {
 		}
 		pathErr := err
 		if err != nil {
+			// the recorded finding: an element *inside* a nested resource cannot be labelled. A nested resource that holds no
+			// element of the requested type gives the labeller nothing to fail on.
+			nestedMatch := false
+			for _, nd := range tree.All() {
+				if nd.Msg == nil || !match(nd.Msg) {
+					continue
+				}
+				for c := nd.Parent; c != nil; c = c.Parent {
+					if c.IsResource && c.Parent != nil {
+						nestedMatch = true
+					}
+				}
+			}
+			if hasNested && plain != nil && errors.Is(err, element.ErrFhirPathNotImplemented) && !nestedMatch && kind != "String" {
+				env.Violatef("C20/extract/"+cls+"/error-without-nested-element", "ExtractAllWithPath[%s] on %s(seed %d): %v, although no nested resource holds a %s", kind, tn, seed, err, kind)
+				return
+			}
 			if hasNested && plain != nil && errors.Is(err, element.ErrFhirPathNotImplemented) {
 				env.Violatef("C20/extract/nested-resource-not-labelled", "ExtractAllWithPath[%s] on %s(seed %d), which holds a contained/bundled resource: %v", kind, tn, seed, err)
 			} else {
